@@ -3,16 +3,22 @@ package checks
 import (
 	"encoding/json"
 	"fmt"
+	"hash/fnv"
 	"math"
+	"net/http/httptest"
+	"path/filepath"
 	"reflect"
 	"strings"
 	"testing"
 	"unicode"
 
+	textwire "github.com/textwire/textwire/v2"
+	"github.com/textwire/textwire/v2/config"
 	"pgregory.net/rapid"
 	"verif/lib/harness"
 	"verif/lib/refint"
 	"verif/lib/spec"
+	"verif/lib/tree"
 	"verif/lib/tw"
 )
 
@@ -95,6 +101,17 @@ func c12Run(c *harness.Check, cs dataCase) string {
 		if r.Out != "" {
 			return "error together with output"
 		}
+		if cs.Expect == "unsupported" {
+			// every render call refuses such data: one case in four (by its content) also goes
+			// through EvaluateFile, Template.String and Template.Response (with and without a
+			// working custom error page, debug on and off)
+			h := fnv.New32a()
+			h.Write([]byte(payload))
+			if v := h.Sum32(); v%4 == 0 {
+				c.Class("also-through:EvaluateFile,String,Response")
+				return c12OtherEntryPoints(c, cs, payload, v/4)
+			}
+		}
 		return ""
 	}
 	if r.IsErr() {
@@ -140,6 +157,42 @@ func c12Run(c *harness.Check, cs dataCase) string {
 		}
 	}
 	return ""
+}
+
+func c12OtherEntryPoints(c *harness.Check, cs dataCase, payload string, variant uint32) string {
+	root, err := tree.Materialise(tree.Tree{"t/page.tw": {Content: cs.Src}, "t/oops.tw": {Content: "<h1>sorry</h1>"}})
+	if err != nil {
+		return ""
+	}
+	failure := ""
+	pi := c.Guard("json", payload, func() {
+		textwire.VerifReset()
+		conf := &config.Config{TemplateDir: "t", TemplateExt: ".tw", ErrorPagePath: []string{"oops", "", "nosuch"}[variant%3], DebugMode: variant%2 == 1}
+		tpl, lerr := textwire.NewTemplate(conf)
+		if lerr != nil {
+			failure = "harness: the one-page directory does not load: " + lerr.Error()
+			return
+		}
+		if out, ferr := tpl.String("page", cs.Data.GoMap()); ferr == nil {
+			failure = fmt.Sprintf("Template.String: expected an error (%s), got output %q", cs.Note, out)
+			return
+		}
+		w := httptest.NewRecorder()
+		if rerr := tpl.Response(w, "page", cs.Data.GoMap()); rerr == nil {
+			failure = fmt.Sprintf("Template.Response (error page %q, debug %v): expected an error (%s), got nil and the body %q", conf.ErrorPagePath, conf.DebugMode, cs.Note, clip(w.Body.String(), 200))
+			return
+		}
+		if out, ferr := textwire.EvaluateFile(filepath.Join(root, "t", "page.tw"), cs.Data.GoMap()); ferr == nil {
+			failure = fmt.Sprintf("EvaluateFile: expected an error (%s), got output %q", cs.Note, out)
+		}
+	})
+	if pi != nil {
+		return "panic: " + pi.Value
+	}
+	if strings.HasPrefix(failure, "harness:") {
+		return ""
+	}
+	return failure
 }
 
 func lowerFirst(s string) string {
@@ -393,7 +446,7 @@ func TestC12_FixedShapes(t *testing.T) {
 
 func TestC12_Unsupported(t *testing.T) {
 	c := harness.New(t, "C12", "unsupported",
-		"data maps in which a value of an unsupported kind (chan, func, complex128, fixed-size array) occurs at top level or nested at any depth (inside pointers, []any, typed slices, maps, struct fields), next to healthy entries, with templates that do and do not touch it: the call must return an error, no output, no panic. Non-trivial: the unsupported value is nested. Distinct by hash.")
+		"data maps in which a value of an unsupported kind (chan, func, complex128, fixed-size array) occurs at top level or nested at any depth (inside pointers, []any, typed slices, maps, struct fields), next to healthy entries, with templates that do and do not touch it: the call must return an error, no output, no panic - through EvaluateString and, for one case in four, through EvaluateFile, Template.String and Template.Response (no, a working or a missing custom error page; debug on and off). Non-trivial: the unsupported value is nested. Distinct by hash.")
 	defer c.Finish()
 	runRapid(t, c, 6000, 60000, func(rt *rapid.T) {
 		bad := spec.Unsupported(rapid.SampledFrom([]string{spec.TChan, spec.TFunc, spec.TComplex, spec.TArray, spec.TIntMap, spec.TBoolMap}).Draw(rt, "kind"))
